@@ -21,13 +21,20 @@ META = dict(
 
 
 class _StubConn:
+    name = "stub-connection"
+    connected_host = "stub"
+    hosts = ["stub"]
+    port = 1
+    closing = False
+    owner = None
+
     def __init__(self, log):
         self.log = log
 
     def event_received(self, resp):
         self.log.append(("EVENT", resp.code, tuple(resp.headers), bytes(resp.body)))
 
-    def _connection_lost(self, exc):
+    def _connection_lost(self, exc, *args):
         pass
 
 
